@@ -100,6 +100,14 @@ M = [
     ("c18_refill_uncapped", "Lib/core/ctx.c", "            if (mod->tb.tokens < mod->tb.burst) {\n                mod->tb.tokens++;\n            }", "            mod->tb.tokens++;", "C18", "C18.2-COUNTER"),
     ("c18_rate0_keeps_tokens", "Lib/core/mod.c", "        mod->tb.rate = 0;\n        mod->tb.burst = UINT64_MAX;\n        mod->tb.tokens = UINT64_MAX;\n        memset(&mod->tb.timer, 0, sizeof(mod->tb.timer));",
      "        mod->tb.rate = 0;\n        mod->tb.burst = UINT64_MAX;\n        memset(&mod->tb.timer, 0, sizeof(mod->tb.timer));", "C18", "C18.4-OFF"),
+    ("c18_rate0_no_dereg_key", "Lib/core/mod.c", "        deregister_internal_tmr(mod, &mod->tb.timer, &mod->tb);", "        m_mod_src_deregister_tmr(mod, &mod->tb.timer);", "C09", "C09.8-INTERNAL-KEYSPACE"),
+    ("c09_tmrcmp_one_keyspace", "Lib/core/src.c", "    if (key_internal != src_internal) {\n        return M_CMP(key_internal, src_internal);\n    }\n", "", "C09", "C09.8-INTERNAL-KEYSPACE"),
+    ("c09_tmrcmp_no_userptr", "Lib/core/src.c", "    if (key_internal && key->userptr != src->userptr) {\n        return M_CMP((uintptr_t)key->userptr, (uintptr_t)src->userptr);\n    }\n", "", "C09", "C09.8-INTERNAL-KEYSPACE"),
+    ("c09_batch_wrong_userptr", "Lib/core/evts.c", "deregister_internal_tmr(mod, &mod->batch.timer, &mod->batch);", "deregister_internal_tmr(mod, &mod->batch.timer, &mod->tb);", "C09", "C09.8-INTERNAL-KEYSPACE"),
+    ("c03_oneshot_not_armed", "Lib/core/poll/epoll.c", "    if (tmp->flags & M_SRC_ONESHOT) {\n        ev->events |= EPOLLONESHOT;\n    }\n", "", "C03", "C03.4-ONESHOT"),
+    ("c04_copy_borrows_sub", "Lib/core/ps.c", "        m->sub = m_mem_ref(sub); //", "        m->sub = sub; //", "C04", "C04.2-REFPTR-STORE"),
+    ("c20_ctx_src_not_removed", "Lib/core/src.c", "        poll_set_new_evt(&c->ppriv, *src, RM);\n        m_mem_unrefp((void **)src);", "        m_mem_unrefp((void **)src);", "C20", "C20.4-RELEASE"),
+    ("c19_dereg_skips_stop", "Lib/core/mod.c", "            /* Stop module */\n            stop(m, true);", "            if (m_mod_is(m, M_MOD_RUNNING | M_MOD_PAUSED)) {\n                stop(m, true);\n            }", "C19", "C19.2-ONE-PER-TRANSITION"),
     # ---- C19
     ("c19_started_on_refuse", "Lib/core/mod.c", "        if (m_mod_is(mod, M_MOD_RUNNING | M_MOD_PAUSED)) {\n            stop(mod, true);\n        }\n        ret = 0;",
      "        tell_system_pubsub_msg(NULL, c, mod, M_PS_MOD_STARTED);\n        if (m_mod_is(mod, M_MOD_RUNNING | M_MOD_PAUSED)) {\n            stop(mod, true);\n        }\n        ret = 0;", "C19", "C19.2-ONE-PER-TRANSITION"),
